@@ -21,7 +21,12 @@ theorem C10_init_overwrites :
     (∀ a ∈ computeReads, a ∈ initWrites ∨ a ∈ ctorWrites) ∧
     (∀ a ∈ computeWrites, a ∈ initWrites) ∧
     (∀ e ∈ initFirst, e.2 = true) ∧ initFirst.map (·.1) = ["trajectory", "zero_angle"] ∧
-    ctorWrites = ["_config", "gravity_vector"] := by decide
+    ctorWrites = ["_config", "gravity_vector"] ∧
+    -- `_init_trajectory` itself reads nothing it has not assigned earlier, except what the constructor set
+    -- (no value surviving from an earlier call, e.g. a cache, enters the per-shot state) …
+    (∀ a ∈ initReadsBeforeWrite, a ∈ ctorWrites) ∧
+    -- … and no dynamic attribute access (getattr/setattr/__dict__ on self) hides reads or writes from this analysis
+    dynamicSelfAccess = [] := by decide
 
 /-- **C10_no_hidden_state** (full, regenerated, kernel-checked): the only functions writing module globals are the two
     documented setters of the global default step; the only attribute stores into objects other than `self` are
